@@ -303,7 +303,9 @@ def _run(case, scratch):
                 if f["kind"] in BAD:
                     if mine:
                         fail("unconvertible-file-has-an-output", mine[:2], f["kind"], f["ext"])
-                    if not any(f["base"] + f["ext"] in l and "Error" in l for l in log.splitlines()):
+                    words = ("error", "warning", "cannot", "could not", "invalid", "fail", "skip", "unable", "not ")
+                    if not any(f["base"] + f["ext"] in l and any(w in l.lower() for w in words)
+                               and "recent version" not in l for l in log.splitlines()):
                         fail("unconvertible-file-not-reported", [l for l in log.splitlines() if f["base"] in l][:3],
                              f["kind"], f["ext"])
                 continue
